@@ -195,7 +195,14 @@ def idiom_stacks(rng):
     return p
 
 
-IDIOMS = [idiom_print, idiom_loop, idiom_read, idiom_fraction, idiom_exit, idiom_multi, idiom_label_return, idiom_stacks]
+def idiom_backjump_stack(rng):
+    """a value parked on a work stack that is selected only by the last switch before a backward jump"""
+    a = rng.randint(4, 9); h = rng.choice([2, 3]); v = rng.randint(3, 9)
+    return [(0, 1, 0, None), (1, 1, a + 1, None), push(v), (0, 1, 1, None), (1, 2, 1, leaf(h)), (0, 1, 3, None), (5, 1, a, None),
+            (0, 2, 1, (0, None, (0, None, (0, leaf(h), None))))]
+
+
+IDIOMS = [idiom_backjump_stack, idiom_print, idiom_loop, idiom_read, idiom_fraction, idiom_exit, idiom_multi, idiom_label_return, idiom_stacks]
 
 
 def rand_cmd(rng, hearts, grammar=True):
